@@ -160,6 +160,10 @@ class RefServer:
                 return (R.CONTINUE, [(R.O_BLOCK1, (ack_num, True, ack_szx))], b"")
             self.bodies.append(bytes(self.assembly))
             self.assembly = None
+            if mis == "wrong_num_in_block1_ack" and c.get("mis_final") and num > 0 and not self.applied:
+                self.applied = True
+                delta = c.get("mis_delta", 1)
+                return (ok_code, [(R.O_BLOCK1, (num + delta if num + delta >= 0 else num + 1, False, ack_szx))], b"")
             if mis == "more_on_final_ack":
                 self.applied = True
                 return (ok_code, [(R.O_BLOCK1, (num, True, ack_szx))], b"")
@@ -313,6 +317,7 @@ def _case(draw):
         "mis_at": draw(st.integers(0, 3)),
         "mis_cut": draw(st.sampled_from(["one", "half", "all"])),
         "mis_delta": draw(st.sampled_from([1, 1, 2, 5, -1])),
+        "mis_final": draw(st.booleans()),
         "mis_delta_szx": draw(st.sampled_from([1, 1, 2, 6])),
         "rng": draw(st.integers(0, 99)),
     }
